@@ -106,9 +106,9 @@ func Cross(a Vector3f, b Vector3f) Vector3f {
 
 func NewVector3fFromProtobuf(point *dagazpb.Point) Vector3f {
 	return Vector3f{
-		x: point.X,
-		y: point.Y,
-		z: point.Z,
+		x: point.GetX(),
+		y: point.GetY(),
+		z: point.GetZ(),
 	}
 }
 
@@ -131,14 +131,14 @@ type Quad struct {
 }
 
 func NewQuadFromProtobuf(protoQuad *dagazpb.Quad) Quad {
-	center := NewVector3fFromProtobuf(protoQuad.Center)
-	extents := NewVector3fFromProtobuf(protoQuad.Extents)
+	center := NewVector3fFromProtobuf(protoQuad.GetCenter())
+	extents := NewVector3fFromProtobuf(protoQuad.GetExtents())
 
 	return Quad{
 		Center:     center,
 		Extents:    extents,
 		Normal:     calculateNormal(center, extents),
-		MergeCount: protoQuad.MergeCount,
+		MergeCount: protoQuad.GetMergeCount(),
 	}
 }
 
@@ -189,8 +189,8 @@ type Ray struct {
 }
 
 func NewRayFromProtobuf(protoRay *dagazpb.Ray) Ray {
-	from := NewVector3fFromProtobuf(protoRay.From)
-	to := NewVector3fFromProtobuf(protoRay.To)
+	from := NewVector3fFromProtobuf(protoRay.GetFrom())
+	to := NewVector3fFromProtobuf(protoRay.GetTo())
 
 	return Ray{
 		From: from,
